@@ -590,6 +590,25 @@ static ak::ContentPtr op_content(const std::string& op, const JV& st, Session& S
     for (auto& x : need(st, "others").GetArray()) others.push_back(S.get(x.GetString()));
     return src->mergemany(others);
   }
+  if (op == "concat0") {
+    // ak.concatenate(axis=0) of src/awkward/operations/structure.py, on the C++ API it calls
+    ak::ContentPtrVec contents;
+    contents.push_back(src);
+    for (auto& x : need(st, "others").GetArray()) contents.push_back(S.get(x.GetString()));
+    ak::ContentPtrVec batch; batch.push_back(contents[0]);
+    for (size_t i = 1; i < contents.size(); i++) {
+      if (batch.back()->mergeable(contents[i], false)) batch.push_back(contents[i]);
+      else {
+        ak::ContentPtr collapsed = batch[0]->mergemany(ak::ContentPtrVec(batch.begin() + 1, batch.end()));
+        batch.clear(); batch.push_back(collapsed->merge_as_union(contents[i]));
+      }
+    }
+    ak::ContentPtr out = batch[0]->mergemany(ak::ContentPtrVec(batch.begin() + 1, batch.end()));
+    if (const ak::UnionArray8_32* u = dynamic_cast<const ak::UnionArray8_32*>(out.get())) return u->simplify_uniontype(true, false);
+    if (const ak::UnionArray8_U32* u = dynamic_cast<const ak::UnionArray8_U32*>(out.get())) return u->simplify_uniontype(true, false);
+    if (const ak::UnionArray8_64* u = dynamic_cast<const ak::UnionArray8_64*>(out.get())) return u->simplify_uniontype(true, false);
+    return out;
+  }
   if (op == "simplify") return src->shallow_simplify();
   if (op == "numbers_to_type") return src->numbers_to_type(gets(st, "name", "float64"));
   if (op == "deep_copy") return src->deep_copy(true, true, true);
